@@ -42,17 +42,22 @@ PROPS = {
         runs=[
             dict(harness="bp", name="split",
                  args=lambda tier, seed, casedir, coq: ["split", "--n", str(q(tier, 300, 10000)), "--seed", str(seed)], coq_timeout=3000),
+            dict(harness="bp", name="batch",
+                 args=lambda tier, seed, casedir, coq: ["batch", "--n", str(q(tier, 300, 6000)), "--seed", str(seed)], coq_timeout=3000),
             bp_sys("C05", 40, 1000),
         ],
         rule="split: random forests (1-4 resources, 0-3 scopes, 0-5 items, empty containers, all metric types incl. empty) cut at a random "
              "size through the real splitTraces/Logs/Metrics, model output compared cell for cell (non-trivial = a real split, distinct by content); "
-             "sys: whole-processor runs, every item traced by content+identity path from Consume to export",
+             "batch: random add / splitBatch sequences (send_batch_max_size 0-6, exact-boundary hits counted) on the real per-signal accumulator vs split_batch of Shard.v, every returned request "
+             "re-read at the end of the sequence (a change = it shares memory with the live buffer); sys: whole-processor runs, every item traced by content+identity path from Consume to export",
         trusted_base=BP_TB,
         assumptions=["container identity = (attributes, dropped count | name, version,… ; schema URL | metadata) rendered canonically by the harness",
                      "requests issued after Shutdown has been called are outside the property (they are released and ignored)"],
     ),
     "C09": dict(
-        runs=[bp_sys("C09", 50, 1000)],
+        runs=[dict(harness="bp", name="batch",
+                 args=lambda tier, seed, casedir, coq: ["batch", "--n", str(q(tier, 300, 6000)), "--seed", str(seed)], coq_timeout=3000),
+            bp_sys("C09", 50, 1000)],
         rule="whole-processor runs over (send_batch_size, send_batch_max_size, timeout) incl. zeros and max==size with real timers; "
              "the shard's recorded input sequence is replayed through the Coq model and every send (trigger, size) must match; "
              "for runs without a concurrency limit the timed trace (microsecond stamps of the event log) of every shard must be accepted by Batch/Time.v "
@@ -82,7 +87,9 @@ PROPS = {
         assumptions=["combination strings are interned by the harness; requests after Shutdown are outside the domain"],
     ),
     "C11": dict(
-        runs=[bp_sys("C11", 60, 2000)],
+        runs=[dict(harness="bp", name="batch",
+                 args=lambda tier, seed, casedir, coq: ["batch", "--n", str(q(tier, 300, 6000)), "--seed", str(seed)], coq_timeout=3000),
+            bp_sys("C11", 60, 2000)],
         rule="whole-processor runs with max_concurrency in {0,1,2,3}, 2-7 callers, random export latencies/failures/cancellations, Shutdown while items are "
              "buffered or callers wait; the recorded event log must be a trace of the protocol LTS (every step enabled), max in-flight measured at the "
              "downstream consumer, every export returned before Shutdown returned, 20 s watchdog for deadlocks",
